@@ -298,6 +298,29 @@ def run(chk) -> None:
     # ---- R25d -----------------------------------------------------------
     _r25d(chk, repo)
 
+    # ---- R25h: every ignore source of an outer directory is honoured --------
+    chk.rule("R25h", "every ignore source of a directory between the working directory and the target is honoured: the loop over the loader table in _iter_config_files tries every entry (no break / return)")
+    g = repo.fn(DISC, "_iter_config_files")
+    n_tab = 0
+    for l in [l for l in walk_local(g) if isinstance(l, ast.For)]:
+        it = l.iter
+        if isinstance(it, ast.Call) and last_attr(it) in ("keys", "items") and isinstance(it.func, ast.Attribute):
+            it = it.func.value
+        if not (isinstance(it, ast.Name) and it.id in tables):
+            continue
+        n_tab += 1
+        early = [b for x in l.body for b in ast.walk(x) if isinstance(b, (ast.Break, ast.Return))]
+        inner = [x for b in l.body for x in ast.walk(b) if isinstance(x, (ast.For, ast.While))]
+        early = [b for b in early if not any(b is y for i_ in inner for y in ast.walk(i_) if isinstance(b, ast.Break))]
+        chk.require(
+            not early, "R25h", early[0] if early else l,
+            "the loop over the ignore-file loaders of a directory is left early: a directory that holds two ignore sources (.sqlfluffignore next to a pyproject.toml / .sqlfluff with "
+            "ignore_paths) contributes only the first, so `lint sub` and `lint .` disagree about the same files",
+            detail="_iter_config_files tries every loader at every level",
+        )
+    chk.count("R25h.loader_table_loops", n_tab)
+    chk.floor("R25h.loader_table_loops", 1)
+
     # ---- R25e -----------------------------------------------------------
     f = repo.fn(DISC, "_iter_files_in_path")
     checker = repo.fn(DISC, "_check_ignore_specs")
@@ -334,6 +357,28 @@ def run(chk) -> None:
         conds = cfg.conditions(cfg.stmt_of(c))
         sw = [e for e, pol in conds if pol and isinstance(e, ast.Name) and (lambda os_: bool(os_) and all(o.kind == "param" for o in os_))(origins(cfg, e, cfg.stmt_of(c)))]
         chk.require(bool(sw), "R25e", c, "inner ignore spec appended outside the ignore_files switch", detail="append under switch")
+        # ... and under nothing else that depends on WHICH directory is being walked: the ignore files of the
+        # root of the walk are honoured like those of every directory below it
+        walk_vars = {x.id for x in ast.walk(walk_for.target) if isinstance(x, ast.Name)}
+        narrowing = []
+        for e, pol in conditions_at(cfg, cfg.stmt_of(c)):
+            names = {x.id for x in ast.walk(e) if isinstance(x, ast.Name)}
+            if not (names & walk_vars):
+                continue
+            # allowed: the truthiness of the loaded spec, membership of the file name in the directory listing
+            if e is loader_call or norm(e) == norm(loader_call):
+                continue
+            if isinstance(e, ast.Name) and all(o.kind == "expr" and o.expr is loader_call for o in origins(cfg, e, cfg.stmt_of(c))):
+                continue
+            dirvar = [x for x in ast.walk(walk_for.target) if isinstance(x, ast.Name)][0].id if walk_vars else None
+            if dirvar in names:
+                narrowing.append(short(e, 50))
+        chk.require(
+            not narrowing, "R25e", c,
+            f"ignore files met during the walk are loaded only under {narrowing}, a test on the directory being walked: the ignore file of that directory (e.g. the root of the walk, "
+            "which reaches the walk under the spelling the caller used) is then not applied to the paths as the walk spells them",
+            detail="inner ignore files loaded for every walked directory",
+        )
         # loader is called with the walked directory and the file name found there
         a0 = loader_call.args[0] if loader_call.args else None
         o0 = origins(cfg, a0, cfg.stmt_of(c)) if isinstance(a0, ast.Name) else []
@@ -516,6 +561,18 @@ def _r25d(chk, repo) -> None:
 from ..selftest import Variant  # noqa: E402
 
 VARIANTS = [
+    Variant(
+        "outer-ignore-sources-first-one-wins", DISC,
+        "                yield str(search_path), _filename\n",
+        "                yield str(search_path), _filename\n                break\n",
+        "R25h", "_iter_config_files", "seeded C25-3",
+    ),
+    Variant(
+        "root-of-walk-ignore-files-not-reloaded", DISC,
+        "        if ignore_files:\n            for ignore_file in set(filenames) & ignore_filename_set:\n",
+        "        if ignore_files and dirname != path:\n            for ignore_file in set(filenames) & ignore_filename_set:\n",
+        "R25e", "_iter_files_in_path", "seeded C25-4: a directory named through a symlink loses its anchored patterns",
+    ),
     # behaviour-preserving edits: the check must stay quiet (selftest.QUIET)
     Variant(
         "quiet-hoist-abspath-of-walk-dirname", DISC,
